@@ -186,6 +186,31 @@ class Watch:
         self.expect = {}          # servo -> ('stop',) | ('stow', fire tick, allowed) | ('move', future mode)
         self.inflight = {}        # servo -> future mode of a SETUP/PRESET whose arrival was not yet seen
         self.pt_nonfinite_start = False
+        # when each servo's get_status really ran (harness clock): the elapsed time of the speed bound is measured
+        # between two runs of get_status, independently of the attribute the implementation keeps for it
+        self.status_ran = {}
+        for n, sv in self.rig.system.servos.items():
+            self._spy_status(n, sv)
+
+    def _spy_status(self, n, sv):
+        orig = sv.get_status
+        rig = self.rig
+        ran = self.status_ran
+
+        def get_status(*a, **k):
+            ran[n] = rig.now()
+            return orig(*a, **k)
+        sv.get_status = get_status
+
+    def last_runs(self):
+        """per servo: the earlier of the implementation's last_status_read and the harness's own record (they are
+        equal on the unchanged tree; the own record is the newer one when the implementation forgets to advance)"""
+        out = {}
+        for n, sv in self.rig.system.servos.items():
+            own = self.status_ran.get(n)
+            impl = sv.last_status_read
+            out[n] = impl if (own is None or abs(own - impl) < 1e-6) else max(own, impl)
+        return out
 
     def table_snapshot(self):
         c = self.rig.system.configurations
@@ -259,7 +284,7 @@ class Watch:
 
     def refresh(self, dt):
         before = self.coords()
-        lasts = {n: sv.last_status_read for n, sv in self.rig.system.servos.items()}
+        lasts = self.last_runs()
         self.rig.refresh(dt)
         self.trace.append([None, dt])
         if self.rig.update_exc is not None:
@@ -285,7 +310,7 @@ class Watch:
         before = self.coords()
         pre_cmd = {n: [float(x) for x in sv.cmd_coords] for n, sv in sysm.servos.items()}
         pre_offs = {n: [float(x) for x in sv.offsets] for n, sv in sysm.servos.items()}
-        lasts = {n: sv.last_status_read for n, sv in sysm.servos.items()}
+        lasts = self.last_runs()
         out = rig.feed(line + '\r\n', 0)
         self.trace.append([line + '\r\n', dt])
         reply = out[-1] if out else None
@@ -474,6 +499,14 @@ DIRECTED = [
     [[None, 0], ['PRESET=M3R,50', 10], ['SETUP=Gregoriano1', 10], [None, 200000], ['PRESET=M3R,-20', 10],
      [None, 200000], ['SETUP=Gregoriano1', 10], [None, 200000], ['STATUS=M3R', 0]],
     [[None, 0], ['SETUP=BWG1', 0], ['SETUP=Gregoriano7', 0], ['SETUP=BWG3', 0], [None, 400000], ['STATUS=M3R', 0]],
+    # a servo held in STOP / after a completed STOW while the status is refreshed, then moved again: the first
+    # refresh afterwards must integrate over its own period only (seeded change C20-r5m3)
+    [[None, 0], ['STOP=M3R', 0], [None, 10240], [None, 10240], ['STATUS=M3R', 5120], ['PRESET=M3R,50', 0],
+     [None, 512], ['STATUS=M3R', 512], [None, 512]],
+    [[None, 0], ['STOW=GFR,1', 0], [None, 10240], [None, 10240], ['STATUS=GFR', 10240], ['SETUP=Gregoriano1', 0],
+     [None, 512], ['STATUS=GFR', 512], [None, 512]],
+    [[None, 0], ['PRESET=SRP,10,10,10,0,0,0', 0], [None, 1024], ['STOP=SRP', 0], [None, 20480], ['STATUS=SRP', 20480],
+     ['PRESET=SRP,-10,-10,-10,0,0,0', 0], [None, 205], ['STATUS=SRP', 205], [None, 205]],
 ]
 
 
@@ -511,7 +544,8 @@ def oracle(ctx):
                     w.refresh(dt)
                     continue
                 if rng.random() < 0.05:
-                    H.pt_burst(rng, w.rig, lim, lambda d, t: w.command(d[:-2], t), w.refresh)
+                    H.pt_burst(rng, w.rig, lim, lambda d, t: w.command(d[:-2], t), w.refresh,
+                               nonfinite_offset=rng.random() < 0.3)
                     continue
                 line = H.gen_command(rng, w.rig, lim, ptstate)
                 if '\r' in line or '\n' in line:
